@@ -1,6 +1,7 @@
 package core
 
 import (
+	"go/token"
 	"go/types"
 	"sort"
 	"strings"
@@ -204,6 +205,7 @@ type GuardResult struct {
 	Violations []GuardViolation
 	CallSites  int
 	Unresolved []string
+	Inferred   []string // helpers treated as lock-held because every call site holds the lock
 }
 
 func fnKey(fn *ssa.Function) string {
@@ -220,8 +222,94 @@ func fnKey(fn *ssa.Function) string {
 	return n
 }
 
-// CheckGuard decides one lock-table row over the scope functions.
+// CheckGuard decides one lock-table row over the scope functions. Unexported
+// helpers that touch guarded state through one of their parameters without
+// taking the lock are not reported as such: they are treated as lock-held
+// helpers (as if listed in row.Held) and every one of their call sites must
+// then hold the lock — "a wrapper acquires nothing, its callers do". The
+// inference is repeated so that helpers of helpers are covered.
 func (p *Prog) CheckGuard(row GuardRow) GuardResult {
+	res := p.checkGuardOnce(row)
+	inferred := map[string]string{}
+	for iter := 0; iter < 4; iter++ {
+		type cand struct {
+			idx   int
+			write bool
+		}
+		cands := map[*ssa.Function]*cand{}
+		for _, v := range res.Violations {
+			if v.CallTo != "" || v.Fn.Parent() != nil {
+				continue
+			}
+			for i, prm := range v.Fn.Params {
+				if v.Need == prm.Name()+"."+row.Mutex {
+					c := cands[v.Fn]
+					if c == nil {
+						c = &cand{idx: i}
+						cands[v.Fn] = c
+					}
+					if c.idx != i {
+						c.idx = -1
+					}
+					c.write = c.write || v.Write
+				}
+			}
+		}
+		added := false
+		for fn, c := range cands {
+			if c.idx < 0 || token.IsExported(fn.Name()) {
+				continue
+			}
+			refs := p.RefsTo(fn)
+			ok := len(refs) > 0
+			for _, r := range refs {
+				if !r.IsCall {
+					ok = false
+				}
+				if _, isGo := r.Instr.(*ssa.Go); isGo {
+					ok = false
+				}
+			}
+			if !ok {
+				continue
+			}
+			key := fnKey(fn)
+			if pk := FuncPkg(fn); pk != nil && Rel(pk.Path()) != row.Pkg {
+				key = Rel(pk.Path()) + ":" + key
+			}
+			if _, had := row.Held[key]; had {
+				continue
+			}
+			tmpl := "$" + string(rune('0'+c.idx))
+			if !c.write {
+				tmpl = "R:" + tmpl
+			}
+			if row.Held == nil {
+				row.Held = map[string]string{}
+			} else if len(inferred) == 0 {
+				cp := map[string]string{}
+				for k, v := range row.Held {
+					cp[k] = v
+				}
+				row.Held = cp
+			}
+			row.Held[key] = tmpl
+			inferred[key] = tmpl
+			added = true
+		}
+		if !added {
+			break
+		}
+		res = p.checkGuardOnce(row)
+	}
+	for k := range inferred {
+		res.Inferred = append(res.Inferred, k)
+	}
+	sort.Strings(res.Inferred)
+	return res
+}
+
+func (p *Prog) checkGuardOnce(row GuardRow) GuardResult {
 	var res GuardResult
 	fields := map[*types.Var]bool{}
 	for _, fname := range row.Fields {
